@@ -1257,6 +1257,79 @@ def check_ctor_values(ctx, name, ns, vs, stats):
                                 inp, "%s: %s" % (type(ex).__name__, str(ex)[:100]), "an equal unfitted object"))
 
 
+def _declared_values(obj):
+    """Values scikit-learn DECLARES valid for the parameters `obj` shares with the scikit-learn classes it extends or
+    borrows its parameters from (`_parameter_constraints`): None where allowed, every string option, both booleans.
+    A generator of valid configurations that does not depend on the source under test."""
+    cons = {}
+    classes_ = [k for k in type(obj).__mro__ if k.__module__.startswith("sklearn.")]
+    if type(obj).__name__ == "ApproximateNMFPredictor":       # documented: forwards its keywords to NMF
+        from sklearn.decomposition import NMF
+        classes_.append(NMF)
+    for k in classes_:
+        for p, c in (getattr(k, "_parameter_constraints", None) or {}).items():
+            cons.setdefault(p, c)
+    out = {}
+    for p, c in cons.items():
+        if not isinstance(c, (list, tuple)):
+            continue
+        vals = []
+        for item in c:
+            if item is None:
+                vals.append(None)
+            elif item == "boolean":
+                vals += [True, False]
+            elif type(item).__name__ == "StrOptions":
+                vals += sorted(v for v in item.options if v not in (getattr(item, "deprecated", None) or ()))
+        if vals:
+            out[p] = vals
+    return out
+
+
+def check_declared_values(name, ci, fac, ns, vs, stats):
+    """set_params(p=v) for every value v scikit-learn declares valid for p, then clone: the key holds v and clone
+    yields an object reporting v (a constructor that replaces a valid argument makes clone refuse the object)."""
+    try:
+        o = fac()
+        P = o.get_params(deep=False)
+    except Exception:  # noqa: BLE001
+        return
+    decl = _declared_values(o)
+    for k in sorted(P):
+        for v in decl.get(k, []):
+            if P[k] is v or (P[k] == v and type(P[k]) is type(v)):
+                continue
+            o = fac()
+            inp = {"class": name, "config": ci, "kind": "declared", "key": k, "value": v}
+            try:
+                r = o.set_params(**{k: v})
+            except Exception:  # noqa: BLE001  (a refused value: not a configuration of this class)
+                continue
+            stats["evaluations"] += 1
+            stats["nontrivial"].add((name, "declared", k, repr(v)))
+            if r is not o or o.get_params(deep=False).get(k, "<missing>") is not v:
+                vs.append(Violation("%s.set_params:declared-value-not-kept" % name, "set_params(%s=%r) does not return the "
+                                    "estimator holding that value" % (k, v), inp,
+                                    repr(o.get_params(deep=False).get(k, "<missing>"))[:60], repr(v)))
+                continue
+            try:
+                c = ns["clone"](o)
+            except RuntimeError as ex:          # scikit-learn's own verdict: the constructor does not keep its argument
+                if type(ex) is not RuntimeError or "Cannot clone" not in str(ex):
+                    continue                    # (NotImplementedError etc.: the constructor refuses the combination)
+                vs.append(Violation("%s.clone:raises-on-declared-value" % name, "clone raises after set_params(%s=%r), a value "
+                                    "scikit-learn declares valid for this parameter" % (k, v), inp,
+                                    "%s: %s" % (type(ex).__name__, " ".join(str(ex).split())[:140]),
+                                    "an unfitted object with equal parameters"))
+                continue
+            except Exception:  # noqa: BLE001  (the constructor refuses the combination: not a configuration)
+                continue
+            got = c.get_params(deep=False).get(k, "<missing>")
+            if not (got is v or (got == v and type(got) is type(v))):
+                vs.append(Violation("%s.clone:declared-value-not-kept" % name, "clone after set_params(%s=%r) reports another "
+                                    "value" % (k, v), inp, repr(got)[:60], repr(v)))
+
+
 def _atom(v):
     return v is None or isinstance(v, (bool, int, float, str))
 
@@ -1402,6 +1475,7 @@ def search(ctx, hints):
         if n in cfg and n in ns["cls"]:
             for ci, fac in enumerate(cfg[n]):
                 check_multi(n, ci, fac, ns, rng, vs, stats, reps=ctx.pick(6, 40))
+                check_declared_values(n, ci, fac, ns, vs, stats)
     # histories on the real objects: single-key sets on advertised keys interleaved with clone / get
     for n in names:
         if n not in cfg or n not in ns["cls"]:
@@ -1521,6 +1595,8 @@ def replay(ctx, item):
             check_ctor_values(_C, name, ns, vs, stats)
         finally:
             _guided.overrides = orig
+    elif kind == "declared":
+        check_declared_values(name, inp["config"], cfg[name][inp["config"]], ns, vs, stats)
     elif kind == "multi":
         check_multi(name, inp["config"], cfg[name][inp["config"]], ns, random.Random(0), vs, stats, reps=1, only=inp["keys"])
     elif kind == "transfer":
